@@ -647,6 +647,13 @@ void abtv_ctxswitch(const void *p_old, const void *p_new)
     own_thr[h] = G.cur;
     me->cur_ctx = p_new;
 }
+void sim_ctx_reset(void)
+{
+    /* the runtime was finalized (or failed to initialise): all contexts are gone */
+    memset(own_ctx, 0, sizeof own_ctx);
+    for (int i = 0; i < G.nT; i++)
+        G.T[i].cur_ctx = NULL;
+}
 uint64_t sim_ctx_switches(void)
 {
     return G.ctx_switches;
